@@ -29,7 +29,7 @@ MANIFEST = dict(
     category="model_checking",
     technique="TLA+ reference semantics of search filters with admissible-outcome sets (TLC exhaustive over value x operator x "
               "literal, pattern x text, depth<=2 expressions) + replay of every TLC-exported case as SPL on the real engine "
-              "over 6 physical layouts of the same dataset, with metamorphic relations where the outcome is open",
+              "over 8 physical layouts of the same dataset (open/rotated x all-dictionary/plain/mixed encoding, split, two-segment), with metamorphic relations where the outcome is open",
     text=("spec/SearchSemantics.tla defines Cell(stored value, op, literal), free-text term/phrase/wildcard matching computed on "
           "character sequences, AND/OR/NOT lifting and the inclusive time range; TLC checks spelling independence of numeric "
           "comparison, trichotomy, case-insensitivity, search==where on numeric fields, the set algebra and prune soundness. "
